@@ -599,7 +599,7 @@ func finish(p Prop, plan []Workload, tier string, seed int64, m *merged, wall ti
 	isKnown := func(key string) *knownFinding {
 		for i := range known {
 			k := &known[i]
-			if k.Key == key || (strings.HasSuffix(k.Key, "*") && strings.HasPrefix(key, strings.TrimSuffix(k.Key, "*"))) {
+			if k.Key == key || globMatch(k.Key, key) {
 				return k
 			}
 		}
@@ -743,4 +743,28 @@ func sanitize(s string) string {
 		out = out[:90]
 	}
 	return out
+}
+
+// globMatch matches key against a pattern in which '*' stands for any (possibly empty) substring.
+func globMatch(pattern, key string) bool {
+	if !strings.Contains(pattern, "*") {
+		return pattern == key
+	}
+	parts := strings.Split(pattern, "*")
+	if !strings.HasPrefix(key, parts[0]) {
+		return false
+	}
+	key = key[len(parts[0]):]
+	for i := 1; i < len(parts); i++ {
+		p := parts[i]
+		if i == len(parts)-1 {
+			return strings.HasSuffix(key, p)
+		}
+		j := strings.Index(key, p)
+		if j < 0 {
+			return false
+		}
+		key = key[j+len(p):]
+	}
+	return true
 }
